@@ -476,7 +476,29 @@ def m_reversed(I_, args, kws, st, ctx, k, node):
   return iter_values(I_, args[0], st, ctx, lambda st2, items: k(st2, IterVal(list(reversed(items)))), node)
 
 
+def m_exc_info(I_, args, kws, st, ctx, k, node):
+  """sys.exc_info() inside an except clause of the same function: (type, value, traceback); the traceback is not modelled
+  (None)"""
+  e = ctx.cur_exc
+  if e is None:
+    return k(st, (None, None, None))
+  return k(st, (e.cls, e, None))
+
+
+def m_next(I_, args, kws, st, ctx, k, node):
+  g = args[0]
+  if isinstance(g, Ref) and st.obj(g).kind == "gen":
+    if len(args) > 1:
+      default = args[1]
+      c2 = ctx.replace(exc_k=lambda s, e: k(s, default) if e.cls is StopIteration else ctx.exc_k(s, e))
+      return I_.gen_resume(g, None, None, st, c2, k, node)
+    return I_.gen_resume(g, None, None, st, ctx, k, node)
+  raise Unsupported("next() of %r" % (type(g).__name__,))
+
+
 def m_iter(I_, args, kws, st, ctx, k, node):
+  if len(args) == 1 and isinstance(args[0], Ref) and st.obj(args[0]).kind == "gen":
+    return k(st, args[0])
   return iter_values(I_, args[0], st, ctx, lambda st2, items: k(st2, IterVal(list(items))), node)
 
 
@@ -983,7 +1005,7 @@ _TABLE = {
   builtins.callable: m_callable, builtins.int: m_int, builtins.bool: m_bool, builtins.float: m_float,
   builtins.str: m_str, builtins.repr: m_repr, builtins.bytes: m_bytes, builtins.list: m_list,
   builtins.tuple: m_tuple, builtins.set: m_set, builtins.dict: m_dict, builtins.range: m_range,
-  builtins.enumerate: m_enumerate, builtins.zip: m_zip, builtins.reversed: m_reversed, builtins.iter: m_iter,
+  builtins.enumerate: m_enumerate, builtins.zip: m_zip, builtins.reversed: m_reversed, builtins.iter: m_iter, builtins.next: m_next,
   builtins.sum: m_sum, builtins.any: m_any, builtins.all: m_all, builtins.min: _minmax(True),
   builtins.max: _minmax(False), builtins.abs: m_abs, builtins.sorted: m_sorted, builtins.id: m_id,
   builtins.hash: m_hash, builtins.ord: m_ord, builtins.chr: m_chr, builtins.super: m_super,
@@ -997,6 +1019,7 @@ _TABLE = {
 import math as _math
 _TABLE[_math.modf] = m_modf
 _TABLE[dir] = m_dir
+_TABLE[sys.exc_info] = m_exc_info
 _UNION_AWARE.update([builtins.isinstance, builtins.len, builtins.type, builtins.bool, builtins.hasattr,
                      builtins.getattr, builtins.setattr, builtins.callable, builtins.int, builtins.str,
                      builtins.bytes, builtins.hash, builtins.id, builtins.repr])
